@@ -24,6 +24,14 @@
 // and a long-lived object that a handler (or all handlers) returns on every call. Objects are identified by
 // pointer, never by UUID; what the outermost stage of the chain returned is compared field by field (incl. the
 // nil-ness of payload and metadata map) with what Publish received, and with the objects once the Router is done.
+//
+// Publishers and subscribers are registered as many kinds of Go value (pointer / value of named, anonymous, embedding
+// and generic struct types; Stringers whose String() returns hostile-but-legal strings such as "*pkg.Type", "**x**",
+// "", " *x "): the two type names in the context must be String() verbatim for a Stringer and the %T type name without
+// the pointer marker otherwise. A fifth of the cases is brought up the hard way (start-up class): several handlers per
+// RunHandlers round, router-level decorators, scripted transient Subscribe / decorator faults (also inside Run) and
+// RunHandlers repeated until it returns nil; afterwards a probe message on every live subscription must reach every
+// registered handler's function, "never" being decided by the quiescence detector.
 package c08
 
 import (
@@ -46,10 +54,14 @@ func init() {
 	vlib.Register(&vlib.Prop{
 		ID:    "C08",
 		Level: "exploration",
-		Cases: func(tier string) int { return vlib.TierN(tier, 2500, 320000) },
+		Cases: func(tier string) int { return vlib.TierN(tier, 3100, 390000) },
 		Run:   run,
 		Rule: "one random Router per case: 1..6 handlers, subscribe/publish topics from a pool of 3 (sharing allowed, occasionally the empty topic), " +
-			"1..n scripted subscribers and publishers shared or private (Stringer *vlib.Sub/*vlib.Pub, or non-Stringer pointer/value wrappers to exercise the %T naming rule), " +
+			"1..n scripted subscribers and publishers shared or private; every end is registered as one of 15 kinds of Go value (50% the scripted end itself, a Stringer; 10%+10% pointer / value of a named struct type; 10% other non-Stringer types: " +
+			"value / pointer of an anonymous struct type, a named struct that gets its methods from an embedded one, a generic struct (incl. pointer of genSub[*int]), the value of a type whose String() has a pointer receiver; " +
+			"20% Stringers with a scripted String() result - pointer receivers, value receivers as value and as pointer, Stringer through an embedded Stringer, pointer of the pointer-receiver-String() type - whose result is drawn from 17 shapes: " +
+			"fmt.Sprintf(\"%T\", p) of the pointer (\"*c08.strSub\"), the bare type name, \"*pkg.Type\", \"pkg.Type\", \"**primary** x\", \"*\", the empty string, blanks, \" *x \", \"x*\", \"&x\" / \"&{x}\" / \"&*x\", 300..70000-byte names with a leading or a trailing '*', arbitrary UTF-8 with and without a leading '*', \"***x***\", a multi-line name); " +
+			"expected type names are literals in the harness: String() verbatim for a Stringer, else the %T type name without the pointer marker; " +
 			"handlers with a publisher / AddNoPublisherHandler / AddHandler with a nil publisher; " +
 			"handler names: 40% of the cases the prefix chain <id>/h, <id>/ha, ...; the others mix unusual-but-legal names per handler - the empty string (forced on one handler in half of them), " +
 			"a name equal to a topic of the pool, arbitrary valid UTF-8 (control characters, multi-byte), 300..70000-byte names that differ in the last byte only, variants of another handler's name " +
@@ -59,7 +71,12 @@ func init() {
 			"drop first/last/all, reverse, duplicate the first, short-circuit (own fresh message / nothing / error without calling next; only where the handler of the subscription is known without the function running); " +
 			"a per-emission bit mask decides which layers act, so one layer is observable for some emissions and transparent for others; router-level layers land at random positions of the registration program " +
 			"(before / between / after handlers and their handler-level middlewares; all before Run); " +
-			"handlers registered before Run or added later through RunHandlers; one message stream per subscription (0..4 emissions, optional failing first attempt + redelivery), " +
+			"handlers registered before Run or added later through RunHandlers; " +
+			"start-up class (20% of the cases, suffix /startup, 2..6 handlers): the handlers added at run time come in batches of 1..n per RunHandlers round (also: every handler before Run, or a Router started without any handler), " +
+			"60% of these cases install a router-level publisher and a subscriber decorator (they hand the end through unchanged), and 88% script 1..2 transient faults per round (round 0 = Run; probability 0.4 for Run, 0.75 per batch): " +
+			"Subscribe fails once for one (subscriber, topic) or for the k-th Subscribe call of the round, or the k-th publisher- / subscriber-decorator call fails once; every failing RunHandlers call is repeated until it returns nil, " +
+			"and when the fault makes Run itself fail, RunHandlers is called (and repeated) after Run returned; then one probe message is sent on every live subscription and every registered handler must be invoked for one (handler-not-routed, decided by the quiescence detector); the ordinary streams follow; " +
+			"one message stream per subscription (0..4 emissions, optional failing first attempt + redelivery), " +
 			"streams driven concurrently (pipelined or settle-before-next) or by one sequential interleaving; output shapes 0..n: fresh objects, the consumed message, one object twice, middleware-appended objects; " +
 			"output values: in 50% of the cases (class suffix /oddvalues) every fresh output draws its UUID from {unique, empty, one UUID shared by several outputs of the invocation, the consumed message's UUID, a case-wide constant}, " +
 			"is built by NewMessage or as a &message.Message{} literal (30%; 60% of those keep a nil Metadata map), carries nil / empty / random payload, metadata with empty keys and empty values, and in 40% no harness key at all (so empty non-nil maps occur); " +
@@ -81,27 +98,113 @@ func init() {
 			"the nesting order of the middlewares of one chain is not judged (the statement does not mention it): layers are matched by what they hand to each other, whatever order watermill composes them in",
 			"every middleware is added before the handler it applies to is started (router-level ones before Run): a middleware added to an already running handler is outside the statement",
 			"'unmodified' is read literally for the three public fields of an output (UUID, Payload, Metadata), including nil vs empty payload / metadata map, both at Publish time and after the Router has finished with the message; the scripted publishers and the middlewares of the harness never write to a message, so any difference is the Router's doing. output-object-modified is judged for handlers with a publisher only and only after Close and Run returned",
+			"start-up faults are transient and scripted (a finite number of failing Subscribe / decorator calls); RunHandlers is retried until it returns nil and what it returns or does while a fault is pending is not judged; the routing demand starts when the last RunHandlers call has returned nil",
+			"handlers that a failing Run call had already started are stopped by Run's own context cancellation: they are recognised by Handler.Started() being closed when Run returned and are exempt from handler-not-routed; subscriptions whose context is already cancelled when the bring-up is over receive no messages",
+			"a publisher / subscriber whose String() returns the empty string sets no type name in the context; such handlers are treated like handlers with an empty name or topic (no emission that carries another hop's context, no object shared by all handlers)",
 			"invocations that return one and the same long-lived object never overlap (the application's obligation: the Router sets the context on produced messages), and an object shared by several handlers is only used where every handler sets all five context values",
 		},
 	})
 }
 
 // ---------------------------------------------------------------------------------------------
-// non-Stringer wrappers: the Router must name them with %T minus the pointer marker.
+// The Pub/Sub type zoo. The rule for the two type names in the context (message/router_context.go: "the name of the
+// message publisher type ... for Kafka it will be `kafka.Publisher`", TestRouter_Context_Stringer: "it's name is the
+// result of String()"; internal.StructName): a Publisher / Subscriber value that implements fmt.Stringer is named by
+// what its String() returns, verbatim; any other value by its Go type as %T prints it, without the pointer marker
+// (*kafka.Publisher -> kafka.Publisher). The expected names are written down literally next to each type.
 
-type plainSub struct{ s *vlib.Sub }
+// subCore is what every subscriber wrapper forwards to: the scripted subscriber behind a gate that can make a
+// Subscribe call fail (start-up faults). Wrappers hold a pointer to it, so they stay comparable.
+type subCore struct {
+	s    *vlib.Sub
+	gate func(topic string) error
+}
+
+func (c *subCore) Subscribe(ctx context.Context, topic string) (<-chan *message.Message, error) {
+	if c.gate != nil {
+		if err := c.gate(topic); err != nil {
+			return nil, err
+		}
+	}
+	return c.s.Subscribe(ctx, topic)
+}
+func (c *subCore) Close() error { return c.s.Close() }
+
+// pointer of a named struct type: "c08.plainSub"
+type plainSub struct{ c *subCore }
 
 func (p *plainSub) Subscribe(ctx context.Context, topic string) (<-chan *message.Message, error) {
-	return p.s.Subscribe(ctx, topic)
+	return p.c.Subscribe(ctx, topic)
 }
-func (p *plainSub) Close() error { return p.s.Close() }
+func (p *plainSub) Close() error { return p.c.Close() }
 
-type plainSubV struct{ s *vlib.Sub }
+// value of a named struct type: "c08.plainSubV"
+type plainSubV struct{ c *subCore }
 
 func (p plainSubV) Subscribe(ctx context.Context, topic string) (<-chan *message.Message, error) {
-	return p.s.Subscribe(ctx, topic)
+	return p.c.Subscribe(ctx, topic)
 }
-func (p plainSubV) Close() error { return p.s.Close() }
+func (p plainSubV) Close() error { return p.c.Close() }
+
+// named struct that gets its methods from an embedded non-Stringer: "c08.embSub" as a value and as a pointer
+type embSub struct{ *plainSub }
+
+// generic named struct: "c08.genSub[int]", "c08.genSub[*int]" (only the LEADING pointer marker goes)
+type genSub[T any] struct{ c *subCore }
+
+func (p genSub[T]) Subscribe(ctx context.Context, topic string) (<-chan *message.Message, error) {
+	return p.c.Subscribe(ctx, topic)
+}
+func (p genSub[T]) Close() error { return p.c.Close() }
+
+// String() on the pointer receiver only: the value is no Stringer ("c08.mixSub"), the pointer is (String())
+type mixSub struct {
+	c *subCore
+	n string
+}
+
+func (p mixSub) Subscribe(ctx context.Context, topic string) (<-chan *message.Message, error) {
+	return p.c.Subscribe(ctx, topic)
+}
+func (p mixSub) Close() error    { return p.c.Close() }
+func (p *mixSub) String() string { return p.n }
+
+// Stringer, pointer receivers: String()
+type strSub struct {
+	c *subCore
+	n string
+}
+
+func (p *strSub) Subscribe(ctx context.Context, topic string) (<-chan *message.Message, error) {
+	return p.c.Subscribe(ctx, topic)
+}
+func (p *strSub) Close() error   { return p.c.Close() }
+func (p *strSub) String() string { return p.n }
+
+// Stringer, value receivers (used as a value and as a pointer): String()
+type strSubV struct {
+	c *subCore
+	n string
+}
+
+func (p strSubV) Subscribe(ctx context.Context, topic string) (<-chan *message.Message, error) {
+	return p.c.Subscribe(ctx, topic)
+}
+func (p strSubV) Close() error   { return p.c.Close() }
+func (p strSubV) String() string { return p.n }
+
+// named struct that is a Stringer through an embedded one (promoted String()): String()
+type embStrSub struct{ *strSub }
+
+// the scripted subscriber itself (Stringer "vsub:<name>") behind the gate: Subscribe is overridden, String() promoted
+type gateSub struct {
+	*vlib.Sub
+	c *subCore
+}
+
+func (p gateSub) Subscribe(ctx context.Context, topic string) (<-chan *message.Message, error) {
+	return p.c.Subscribe(ctx, topic)
+}
 
 type plainPub struct{ p *vlib.Pub }
 
@@ -117,6 +220,216 @@ func (p plainPubV) Publish(topic string, msgs ...*message.Message) error {
 }
 func (p plainPubV) Close() error { return p.p.Close() }
 
+type embPub struct{ *plainPub }
+
+type genPub[T any] struct{ p *vlib.Pub }
+
+func (p genPub[T]) Publish(topic string, msgs ...*message.Message) error {
+	return p.p.Publish(topic, msgs...)
+}
+func (p genPub[T]) Close() error { return p.p.Close() }
+
+type mixPub struct {
+	p *vlib.Pub
+	n string
+}
+
+func (p mixPub) Publish(topic string, msgs ...*message.Message) error {
+	return p.p.Publish(topic, msgs...)
+}
+func (p mixPub) Close() error    { return p.p.Close() }
+func (p *mixPub) String() string { return p.n }
+
+type strPub struct {
+	p *vlib.Pub
+	n string
+}
+
+func (p *strPub) Publish(topic string, msgs ...*message.Message) error {
+	return p.p.Publish(topic, msgs...)
+}
+func (p *strPub) Close() error   { return p.p.Close() }
+func (p *strPub) String() string { return p.n }
+
+type strPubV struct {
+	p *vlib.Pub
+	n string
+}
+
+func (p strPubV) Publish(topic string, msgs ...*message.Message) error {
+	return p.p.Publish(topic, msgs...)
+}
+func (p strPubV) Close() error   { return p.p.Close() }
+func (p strPubV) String() string { return p.n }
+
+type embStrPub struct{ *strPub }
+
+// kinds of Pub/Sub values (the same list for both ends)
+const (
+	ekVlib      = iota // the scripted end itself: Stringer, "vsub:<name>" / "vpub:<name>"
+	ekPtr              // pointer of a named struct type
+	ekVal              // value of a named struct type
+	ekAnonVal          // value of an anonymous struct type (methods from an embedded interface)
+	ekAnonPtr          // pointer of an anonymous struct type
+	ekEmbVal           // named struct embedding a non-Stringer, value
+	ekEmbPtr           // ... pointer
+	ekGenVal           // generic named struct, value
+	ekGenPtr           // generic named struct with a pointer type argument, pointer
+	ekMixVal           // String() has a pointer receiver and the VALUE is registered: no Stringer
+	ekMixPtr           // ... the pointer is registered: Stringer
+	ekStrPtr           // Stringer with pointer receivers
+	ekStrVal           // Stringer with value receivers, value
+	ekStrValPtr        // Stringer with value receivers, pointer
+	ekEmbStr           // Stringer through an embedded Stringer
+)
+
+var ekNames = []string{"vlib", "ptr", "val", "anon", "anonptr", "emb", "embptr", "gen", "genptr", "mixval", "mixptr", "strptr", "strval", "strvalptr", "embstr"}
+
+// plainKinds / strKinds: the non-Stringer and the scripted-String() kinds
+var plainKinds = []int{ekAnonVal, ekAnonPtr, ekEmbVal, ekEmbPtr, ekGenVal, ekGenPtr, ekMixVal}
+var strKinds = []int{ekMixPtr, ekStrPtr, ekStrPtr, ekStrVal, ekStrValPtr, ekEmbStr}
+
+// hostileName draws what a scripted String() returns: legal strings that a name rule must hand through verbatim.
+// typeName is what fmt.Sprintf("%T", p) gives for the pointer ("*c08.strSub"), tag is unique per end and case.
+func hostileName(r *vlib.Rand, typeName, tag string) (string, string) {
+	switch r.Intn(18) {
+	case 0, 1:
+		return typeName, "%T-of-pointer" // the common `func (p *Pub) String() string { return fmt.Sprintf("%T", p) }`
+	case 2:
+		return strings.TrimLeft(typeName, "*"), "type-name"
+	case 3:
+		return "*pkg.Type", "*pkg.Type"
+	case 4:
+		return "pkg.Type", "pkg.Type"
+	case 5:
+		return "**primary** " + tag, "**label**"
+	case 6:
+		return "*", "star"
+	case 7:
+		return "", "empty"
+	case 8:
+		return []string{" ", "\t", "  "}[r.Intn(3)], "blank"
+	case 9:
+		return " *" + tag + " ", "space-star"
+	case 10:
+		return tag + "*", "trailing-star"
+	case 11:
+		return []string{"&" + tag, "&{" + tag + "}", "&*" + tag}[r.Intn(3)], "ampersand"
+	case 12:
+		return "*" + strings.Repeat("N", []int{300, 5000, 70000}[r.Intn(3)]) + tag, "*long"
+	case 13:
+		return strings.Repeat("N", []int{300, 5000, 70000}[r.Intn(3)]) + tag + "*", "long*"
+	case 14:
+		return r.UTF8(8), "utf8"
+	case 15:
+		return "*" + r.UTF8(6), "*utf8"
+	case 16:
+		return "***" + tag + "***", "***"
+	default:
+		return "*" + tag + "\n*x", "*multiline"
+	}
+}
+
+// mkSub builds subscriber i of the case of the given kind around core.
+func mkSub(r *vlib.Rand, kind int, core *subCore, tag string, gated bool) (iface message.Subscriber, name, nameKind string) {
+	switch kind {
+	case ekVlib:
+		if gated {
+			return gateSub{Sub: core.s, c: core}, "vsub:" + core.s.Name, ""
+		}
+		return core.s, "vsub:" + core.s.Name, ""
+	case ekPtr:
+		return &plainSub{c: core}, "c08.plainSub", ""
+	case ekVal:
+		return plainSubV{c: core}, "c08.plainSubV", ""
+	case ekAnonVal:
+		return struct{ message.Subscriber }{&plainSub{c: core}}, "struct { message.Subscriber }", ""
+	case ekAnonPtr:
+		return &struct{ message.Subscriber }{&plainSub{c: core}}, "struct { message.Subscriber }", ""
+	case ekEmbVal:
+		return embSub{&plainSub{c: core}}, "c08.embSub", ""
+	case ekEmbPtr:
+		return &embSub{&plainSub{c: core}}, "c08.embSub", ""
+	case ekGenVal:
+		return genSub[int]{c: core}, "c08.genSub[int]", ""
+	case ekGenPtr:
+		return &genSub[*int]{c: core}, "c08.genSub[*int]", ""
+	case ekMixVal:
+		return mixSub{c: core, n: "*never used: the value is no Stringer"}, "c08.mixSub", ""
+	case ekMixPtr:
+		n, nk := hostileName(r, "*c08.mixSub", tag)
+		return &mixSub{c: core, n: n}, n, nk
+	case ekStrPtr:
+		n, nk := hostileName(r, "*c08.strSub", tag)
+		return &strSub{c: core, n: n}, n, nk
+	case ekStrVal:
+		n, nk := hostileName(r, "c08.strSubV", tag)
+		return strSubV{c: core, n: n}, n, nk
+	case ekStrValPtr:
+		n, nk := hostileName(r, "*c08.strSubV", tag)
+		return &strSubV{c: core, n: n}, n, nk
+	default:
+		n, nk := hostileName(r, "*c08.embStrSub", tag)
+		return embStrSub{&strSub{c: core, n: n}}, n, nk
+	}
+}
+
+func mkPub(r *vlib.Rand, kind int, p *vlib.Pub, tag string) (iface message.Publisher, name, nameKind string) {
+	switch kind {
+	case ekVlib:
+		return p, "vpub:" + p.Name, ""
+	case ekPtr:
+		return &plainPub{p: p}, "c08.plainPub", ""
+	case ekVal:
+		return plainPubV{p: p}, "c08.plainPubV", ""
+	case ekAnonVal:
+		return struct{ message.Publisher }{&plainPub{p: p}}, "struct { message.Publisher }", ""
+	case ekAnonPtr:
+		return &struct{ message.Publisher }{&plainPub{p: p}}, "struct { message.Publisher }", ""
+	case ekEmbVal:
+		return embPub{&plainPub{p: p}}, "c08.embPub", ""
+	case ekEmbPtr:
+		return &embPub{&plainPub{p: p}}, "c08.embPub", ""
+	case ekGenVal:
+		return genPub[int]{p: p}, "c08.genPub[int]", ""
+	case ekGenPtr:
+		return &genPub[*int]{p: p}, "c08.genPub[*int]", ""
+	case ekMixVal:
+		return mixPub{p: p, n: "*never used: the value is no Stringer"}, "c08.mixPub", ""
+	case ekMixPtr:
+		n, nk := hostileName(r, "*c08.mixPub", tag)
+		return &mixPub{p: p, n: n}, n, nk
+	case ekStrPtr:
+		n, nk := hostileName(r, "*c08.strPub", tag)
+		return &strPub{p: p, n: n}, n, nk
+	case ekStrVal:
+		n, nk := hostileName(r, "c08.strPubV", tag)
+		return strPubV{p: p, n: n}, n, nk
+	case ekStrValPtr:
+		n, nk := hostileName(r, "*c08.strPubV", tag)
+		return &strPubV{p: p, n: n}, n, nk
+	default:
+		n, nk := hostileName(r, "*c08.embStrPub", tag)
+		return embStrPub{&strPub{p: p, n: n}}, n, nk
+	}
+}
+
+// drawEndKind: 50% the scripted end itself, 10% each pointer / value wrapper (the kinds of the earlier rounds),
+// 10% the other non-Stringer types, 20% a scripted String().
+func drawEndKind(r *vlib.Rand) int {
+	switch k := r.Intn(10); {
+	case k == 0:
+		return ekPtr
+	case k == 1:
+		return ekVal
+	case k == 2:
+		return plainKinds[r.Intn(len(plainKinds))]
+	case k <= 4:
+		return strKinds[r.Intn(len(strKinds))]
+	}
+	return ekVlib
+}
+
 // ---------------------------------------------------------------------------------------------
 // configuration
 
@@ -129,17 +442,20 @@ const (
 var pubKindNames = []string{"pub", "nopub", "nilpub"}
 
 type subEnd struct {
-	s     *vlib.Sub
-	iface message.Subscriber
-	kind  int    // 0 Stringer, 1 pointer wrapper, 2 value wrapper
-	name  string // what SubscriberNameFromCtx must report (written down literally, not computed through watermill)
+	s        *vlib.Sub
+	core     *subCore
+	iface    message.Subscriber
+	kind     int    // ek*
+	name     string // what SubscriberNameFromCtx must report (written down literally, not computed through watermill)
+	nameKind string // scripted String(): which shape
 }
 
 type pubEnd struct {
-	p     *vlib.Pub
-	iface message.Publisher
-	kind  int
-	name  string
+	p        *vlib.Pub
+	iface    message.Publisher
+	kind     int
+	name     string
+	nameKind string
 }
 
 type hcfg struct {
@@ -238,7 +554,7 @@ func readCtx(ctx context.Context) [5]string {
 func ctxDiff(got, want [5]string) string {
 	for i := range got {
 		if want[i] != "*" && got[i] != want[i] {
-			return fmt.Sprintf("%s = %q, want %q", ctxFields[i], got[i], want[i])
+			return fmt.Sprintf("%s = %s, want %s", ctxFields[i], short(got[i]), short(want[i]))
 		}
 	}
 	return ""
@@ -283,6 +599,7 @@ type emPlan struct {
 	fresh     map[string]freshSpec
 	failFirst bool // attempt 1 returns an error (and no messages); the harness redelivers once
 	wait      bool // the stream waits for the settlement before its next emission
+	probe     bool // start-up class: the message sent on every live subscription right after the bring-up
 	stale     bool // emit with a context that already carries ANOTHER handler's router values (a message forwarded in-process from another hop)
 	yields    int
 	shape     string
@@ -320,7 +637,8 @@ type chainRec struct {
 type spInfo struct {
 	sub   int
 	sp    *vlib.Subscription
-	owner int // handler index when known exactly (late handler or the only handler on (sub, topic)), else -1
+	owner int  // handler index when known exactly (late handler or the only handler on (sub, topic)), else -1
+	dead  bool // its context was already cancelled when the harness enumerated it (subscription made by a Run call that failed)
 }
 
 type caseState struct {
@@ -346,6 +664,23 @@ type caseState struct {
 	driveSeq bool
 	ctxOf    map[int]context.Context // handler index -> a message context seen inside that handler
 	staleN   atomic.Int32
+
+	// start-up class (see genStartup)
+	startup       bool
+	useDeco       bool
+	batches       [][]int // late handlers per RunHandlers round
+	batchSize     []int   // by handler index (0 for early handlers)
+	phaseFaults   [][]*fault
+	faultsPlanned int
+	fmu           sync.Mutex
+	armed         []*fault
+	fired         [3]int
+	gateCalls     [3]int
+	retries       int
+	runFailed     bool
+	s0            map[int]bool // handlers that were started by the Run call that failed (stopped by Run's own cancellation)
+	probes        []*emPlan
+	probesSent    int
 
 	odd bool // odd-output case: unusual UUIDs / payloads / metadata / constructor-less objects among the outputs and the emissions
 	// long-lived objects: statics[h] is returned by handler h's function for every "X" token. Only drawn in cases whose
@@ -833,12 +1168,160 @@ func (c *caseState) genLayers() {
 	c.rlOps = append(c.rlOps, body...)
 }
 
+// ---------------------------------------------------------------------------------------------
+// start-up class: batches, decorators, scripted transient faults
+
+// startupShare is the share of the cases that belong to the start-up class.
+const startupShare = 0.2
+
+const (
+	gSubscribe = iota // Subscribe of a scripted subscriber
+	gPubDeco          // the router-level publisher decorator
+	gSubDeco          // the router-level subscriber decorator
+)
+
+var gateNames = []string{"subscribe", "publisher-decorator", "subscriber-decorator"}
+
+// fault: at gate `gate` (Subscribe: only calls for `key` = "<subscriber>|<topic>", unless key is empty), after `skip`
+// further calls have passed, one call fails - once.
+type fault struct {
+	gate int
+	key  string
+	skip int
+}
+
+// genStartup draws the bring-up program: the late handlers in batches (one RunHandlers round per batch; classic cases:
+// one handler per batch), whether router-level decorators are installed, and the faults of every round (round 0 = Run).
+func (c *caseState) genStartup(lateFrom int) {
+	r := c.e.R
+	c.batchSize = make([]int, len(c.hs))
+	var early []int
+	for _, h := range c.hs {
+		if !h.late {
+			early = append(early, h.idx)
+			continue
+		}
+		if len(c.batches) == 0 || !c.startup || r.Chance(0.3) {
+			c.batches = append(c.batches, nil)
+		}
+		c.batches[len(c.batches)-1] = append(c.batches[len(c.batches)-1], h.idx)
+	}
+	for _, b := range c.batches {
+		for _, hi := range b {
+			c.batchSize[hi] = len(b)
+		}
+	}
+	c.phaseFaults = make([][]*fault, 1+len(c.batches))
+	if !c.startup {
+		return
+	}
+	c.useDeco = r.Chance(0.6)
+	if r.Chance(0.12) {
+		return // batches (and decorators) only, no fault
+	}
+	for ph := range c.phaseFaults {
+		members := early
+		pFault := 0.4
+		if ph > 0 {
+			members, pFault = c.batches[ph-1], 0.75
+		}
+		if len(members) == 0 || !r.Chance(pFault) {
+			continue
+		}
+		n := 1
+		if r.Chance(0.3) {
+			n = 2
+		}
+		for k := 0; k < n; k++ {
+			f := &fault{gate: gSubscribe}
+			if c.useDeco && r.Chance(0.4) {
+				f.gate = []int{gPubDeco, gSubDeco}[r.Intn(2)]
+			}
+			if f.gate == gSubscribe && r.Chance(0.7) {
+				// "Subscribe fails once for one topic"
+				h := c.hs[members[r.Intn(len(members))]]
+				f.key = fmt.Sprintf("%d|%s", h.sub, h.subTopic)
+				if r.Chance(0.2) {
+					f.skip = 1
+				}
+			} else {
+				f.skip = r.Intn(len(members))
+			}
+			c.phaseFaults[ph] = append(c.phaseFaults[ph], f)
+			c.faultsPlanned++
+		}
+	}
+}
+
+// arm installs the faults of bring-up round ph (faults of the previous round that never fired are dropped).
+func (c *caseState) arm(ph int) {
+	c.fmu.Lock()
+	defer c.fmu.Unlock()
+	c.armed = nil
+	for _, f := range c.phaseFaults[ph] {
+		g := *f
+		c.armed = append(c.armed, &g)
+	}
+}
+
+// gateCall is called by every gated operation; it returns the scripted error when an armed fault is due.
+func (c *caseState) gateCall(gate int, key string) error {
+	c.fmu.Lock()
+	defer c.fmu.Unlock()
+	c.gateCalls[gate]++
+	for i, f := range c.armed {
+		if f.gate != gate || (f.key != "" && f.key != key) {
+			continue
+		}
+		if f.skip == 0 {
+			c.armed = append(c.armed[:i:i], c.armed[i+1:]...)
+			c.fired[gate]++
+			return fmt.Errorf("scripted transient %s fault", gateNames[gate])
+		}
+		f.skip--
+	}
+	return nil
+}
+
+func (c *caseState) firedCount() int {
+	c.fmu.Lock()
+	defer c.fmu.Unlock()
+	return c.fired[0] + c.fired[1] + c.fired[2]
+}
+
+// bringUp calls RunHandlers until it returns nil. An error is expected only when a scripted fault fired during the call.
+func (c *caseState) bringUp(router *message.Router, ctx context.Context) (bool, string) {
+	for n := 0; ; n++ {
+		before := c.firedCount()
+		err := router.RunHandlers(ctx)
+		if err == nil {
+			return true, ""
+		}
+		c.retries++
+		if c.firedCount() == before || n > 16 {
+			return false, fmt.Sprintf("RunHandlers: %v", err)
+		}
+	}
+}
+
+// setsAllFive: handler h sets all five context values (watermill leaves a value of an earlier hop untouched when the
+// handler's own value is the empty string).
+func (c *caseState) setsAllFive(h *hcfg) bool {
+	return h.pubKind == pubReal && h.pubTopic != "" && h.subTopic != "" && h.name != "" && c.subs[h.sub].name != "" && c.pubs[h.pub].name != ""
+}
+
 func (c *caseState) generate() {
 	e, r := c.e, c.e.R
 	id := e.ID()
 	nH := r.Range(1, 6)
 	if r.Chance(0.15) {
 		nH = 1
+	}
+	// start-up class: handlers are brought up in batches (several not-started handlers per RunHandlers call), through
+	// router-level decorators, with scripted transient faults; every RunHandlers call is retried until it returns nil
+	c.startup = r.Chance(startupShare)
+	if c.startup && nH < 2 {
+		nH = r.Range(2, 6)
 	}
 	topics := []string{id + "/t0", id + "/t1", id + "/t2"}
 	if r.Chance(0.1) {
@@ -848,34 +1331,40 @@ func (c *caseState) generate() {
 	nP := r.Range(1, nH)
 	for i := 0; i < nS; i++ {
 		s := &vlib.Sub{Name: fmt.Sprintf("%s/s%d", id, i)}
-		se := &subEnd{s: s}
-		switch k := r.Intn(5); {
-		case k == 0:
-			se.kind, se.iface, se.name = 1, &plainSub{s: s}, "c08.plainSub"
-		case k == 1:
-			se.kind, se.iface, se.name = 2, plainSubV{s: s}, "c08.plainSubV"
-		default:
-			se.kind, se.iface, se.name = 0, s, "vsub:"+s.Name
+		se := &subEnd{s: s, core: &subCore{s: s}, kind: drawEndKind(r)}
+		if c.startup {
+			si := i
+			se.core.gate = func(topic string) error { return c.gateCall(gSubscribe, fmt.Sprintf("%d|%s", si, topic)) }
 		}
+		se.iface, se.name, se.nameKind = mkSub(r, se.kind, se.core, s.Name, c.startup)
 		c.subs = append(c.subs, se)
 	}
 	for i := 0; i < nP; i++ {
 		p := &vlib.Pub{Name: fmt.Sprintf("%s/p%d", id, i)}
-		pe := &pubEnd{p: p}
-		switch k := r.Intn(5); {
-		case k == 0:
-			pe.kind, pe.iface, pe.name = 1, &plainPub{p: p}, "c08.plainPub"
-		case k == 1:
-			pe.kind, pe.iface, pe.name = 2, plainPubV{p: p}, "c08.plainPubV"
-		default:
-			pe.kind, pe.iface, pe.name = 0, p, "vpub:"+p.Name
-		}
+		pe := &pubEnd{p: p, kind: drawEndKind(r)}
+		pe.iface, pe.name, pe.nameKind = mkPub(r, pe.kind, p, p.Name)
 		c.pubs = append(c.pubs, pe)
 	}
 	shareBias := r.Chance(0.4) // push towards handlers sharing subscriber AND topic
 	lateFrom := nH
 	if nH > 1 && r.Chance(0.3) {
 		lateFrom = r.Range(1, nH-1)
+	}
+	if c.startup {
+		switch r.Intn(4) {
+		case 0: // every handler before Run: the faults hit Run itself
+			lateFrom = nH
+		case 1: // at least two handlers at run time; sometimes a Router that is started without any handler
+			lateFrom = r.Range(1, nH-1)
+			if nH > 2 {
+				lateFrom = r.Range(1, nH-2)
+			}
+			if r.Chance(0.3) {
+				lateFrom = 0
+			}
+		default:
+			lateFrom = r.Range(1, nH-1)
+		}
 	}
 	names, kinds := genNames(r, id, nH, topics)
 	for i := 0; i < nH; i++ {
@@ -903,6 +1392,7 @@ func (c *caseState) generate() {
 		h.late = i >= lateFrom
 		c.hs = append(c.hs, h)
 	}
+	c.genStartup(lateFrom)
 	c.genLayers()
 	c.odd = r.Chance(0.5)
 	c.useStatic = r.Chance(0.25)
@@ -922,7 +1412,7 @@ func (c *caseState) generate() {
 			grp[fmt.Sprintf("%d|%s", h.sub, h.subTopic)]++
 		}
 		for _, h := range c.hs {
-			ownerKnown[h.idx] = h.late || grp[fmt.Sprintf("%d|%s", h.sub, h.subTopic)] == 1
+			ownerKnown[h.idx] = (h.late && c.batchSize[h.idx] == 1) || grp[fmt.Sprintf("%d|%s", h.sub, h.subTopic)] == 1
 		}
 	}
 	for i := 0; i < nH; i++ {
@@ -975,6 +1465,16 @@ func (c *caseState) generate() {
 		}
 		c.streams = append(c.streams, st)
 	}
+	if c.startup {
+		// one probe per subscription the Router can make: a plain message whose handling returns one fresh object
+		for k := 0; k < nH; k++ {
+			p := &emPlan{stream: 100 + k, probe: true, uuid: fmt.Sprintf("%s/probe%d", id, k), payload: r.Payload(8), fresh: map[string]freshSpec{}, fnOuts: []string{"F0"}, wait: true, shape: "probe"}
+			p.fresh["F0"] = genFresh(r, false, 8)
+			p.fresh["S"] = genFresh(r, false, 8)
+			c.probes = append(c.probes, p)
+			c.plans[eidFor(p, id, 1)] = p
+		}
+	}
 	c.driveSeq = r.Chance(0.25)
 	if c.useStatic {
 		// the long-lived objects: half of them without UUID, some built without the constructor, none with a harness key
@@ -989,7 +1489,7 @@ func (c *caseState) generate() {
 		}
 		allSet := true
 		for _, h := range c.hs {
-			if h.pubKind != pubReal || h.pubTopic == "" || h.subTopic == "" || h.name == "" {
+			if !c.setsAllFive(h) {
 				allSet = false
 			}
 		}
@@ -1070,7 +1570,7 @@ func (c *caseState) emit(spi int, p *emPlan, attempt int) *emission {
 		for _, h := range c.hs {
 			if h.sub == c.spis[spi].sub && h.subTopic == sp.Topic {
 				sameGroup[h.idx] = true
-				if h.pubKind != pubReal || h.pubTopic == "" || h.subTopic == "" || h.name == "" {
+				if !c.setsAllFive(h) {
 					allSet = false
 				}
 			}
@@ -1131,6 +1631,9 @@ func (c *caseState) emitOne(spi int, p *emPlan, forceWait bool) []*emission {
 	return nil
 }
 
+// wo: the Router's CloseTimeout is one hour in every case, so the timer inside WaitGroupTimeout never decides anything.
+var wo = vlib.WaitOpts{Watchdog: 40 * time.Second, NoTimerCheck: []string{"pubsub/sync.WaitGroupTimeout"}}
+
 func run(e *vlib.Env) vlib.Result {
 	res := vlib.Result{}
 	c := &caseState{e: e}
@@ -1170,10 +1673,26 @@ func run(e *vlib.Env) vlib.Result {
 			c.addHandlerMWs(c.hs[op[1]])
 		}
 	}
+	if c.useDeco {
+		// router-level decorators that hand the end through unchanged unless a scripted fault is due (added before Run)
+		router.AddPublisherDecorators(func(p message.Publisher) (message.Publisher, error) {
+			if err := c.gateCall(gPubDeco, ""); err != nil {
+				return nil, err
+			}
+			return p, nil
+		})
+		router.AddSubscriberDecorators(func(s message.Subscriber) (message.Subscriber, error) {
+			if err := c.gateCall(gSubDeco, ""); err != nil {
+				return nil, err
+			}
+			return s, nil
+		})
+	}
 	ctx, cancel := context.WithCancel(context.Background())
 	defer cancel()
 	runDone := make(chan struct{})
 	var runErr error
+	c.arm(0)
 	go func() { runErr = router.Run(ctx); close(runDone) }()
 
 	closed := false
@@ -1184,9 +1703,9 @@ func run(e *vlib.Env) vlib.Result {
 		closed = true
 		closeDone := make(chan struct{})
 		go func() { router.Close(); close(closeDone) }()
-		oc, d := vlib.WaitClosed(closeDone, vlib.WD)
+		oc, d := vlib.WaitClosed(closeDone, wo)
 		if oc == vlib.Done {
-			oc, d = vlib.WaitClosed(runDone, vlib.WD)
+			oc, d = vlib.WaitClosed(runDone, wo)
 		}
 		cancel()
 		for _, se := range c.subs {
@@ -1195,15 +1714,31 @@ func run(e *vlib.Env) vlib.Result {
 		return oc, d
 	}
 
-	if oc, d := vlib.WaitUntil(func() bool { return vlib.IsClosed(router.Running()) || vlib.IsClosed(runDone) }, vlib.WD); oc != vlib.Done || vlib.IsClosed(runDone) {
+	if oc, d := vlib.WaitUntil(func() bool { return vlib.IsClosed(router.Running()) || vlib.IsClosed(runDone) }, wo); oc != vlib.Done || vlib.IsClosed(runDone) {
 		var re error
 		if vlib.IsClosed(runDone) {
 			re = runErr
 		}
-		shutdown()
-		res.Inconclusive("router did not start (%v, run error %v)", oc, re)
-		res.Witness = d
-		return res
+		if !(c.startup && oc == vlib.Done && re != nil && c.firedCount() > 0) {
+			shutdown()
+			res.Inconclusive("router did not start (%v, run error %v)", oc, re)
+			res.Witness = d
+			return res
+		}
+		// A scripted fault made Run fail half-way. Run has cancelled the context of the handlers it had started (they
+		// stop: not judged); the others are brought up by retrying RunHandlers, as for handlers added at run time.
+		c.runFailed = true
+		c.s0 = map[int]bool{}
+		for _, h := range c.hs {
+			if !h.late && vlib.IsClosed(c.handles[h.idx].Started()) {
+				c.s0[h.idx] = true
+			}
+		}
+		if ok, why := c.bringUp(router, ctx); !ok {
+			shutdown()
+			res.Inconclusive("after the failed Run: %s", why)
+			return res
+		}
 	}
 
 	// subscriptions of the early handlers
@@ -1224,28 +1759,99 @@ func run(e *vlib.Env) vlib.Result {
 						}
 					}
 				}
-				c.spis = append(c.spis, spInfo{sub: si, sp: sp, owner: o})
+				c.spis = append(c.spis, spInfo{sub: si, sp: sp, owner: o, dead: sp.Ctx.Err() != nil})
 			}
 			seen[si] = len(all)
 		}
 	}
 	collect(-1)
-	// late handlers, one RunHandlers call each: the subscription created by the call is that handler's
-	for _, h := range c.hs {
-		if !h.late {
-			continue
+	// late handlers, one RunHandlers round per batch (classic cases: one handler per batch - the subscription created
+	// by the call is that handler's)
+	for bi, batch := range c.batches {
+		c.arm(bi + 1)
+		for _, hi := range batch {
+			c.register(router, c.hs[hi], true)
 		}
-		c.register(router, h, true)
 		before := len(c.spis)
-		if err := router.RunHandlers(ctx); err != nil {
+		if ok, why := c.bringUp(router, ctx); !ok {
 			shutdown()
-			res.Inconclusive("RunHandlers: %v", err)
+			res.Inconclusive("%s", why)
 			return res
 		}
-		collect(h.idx)
-		if len(c.spis) != before+1 {
+		owner := -1
+		if len(batch) == 1 {
+			owner = batch[0]
+		}
+		collect(owner)
+		if h := c.hs[batch[0]]; !c.startup && len(c.spis) != before+1 {
 			shutdown()
 			res.Fail("subscribe-topic", "RunHandlers for late handler %d (%s on sub %d topic %q) created %d subscriptions, want exactly 1", h.idx, short(h.name), h.sub, h.subTopic, len(c.spis)-before)
+			return c.finish(res, ctl)
+		}
+	}
+
+	// clause handler-not-routed (start-up class): every RunHandlers round has returned nil, so "a message arriving on a
+	// handler's subscribe topic is passed to that handler's function" holds for EVERY registered handler from here on.
+	// One probe message is sent on every live subscription; every handler (except those a failed Run had started and
+	// then cancelled itself) must be invoked for one. "Never" is decided by the quiescence detector.
+	if c.startup {
+		var live []int
+		for i, s := range c.spis {
+			if !s.dead {
+				live = append(live, i)
+			}
+		}
+		if len(live) > len(c.probes) {
+			shutdown()
+			res.Fail("subscribe-topic", "the Router holds %d live subscriptions for %d handlers", len(live), len(c.hs))
+			return c.finish(res, ctl)
+		}
+		probesDone := make(chan struct{})
+		var wg sync.WaitGroup
+		for k, spi := range live {
+			wg.Add(1)
+			go func(spi int, p *emPlan) {
+				defer wg.Done()
+				c.emitOne(spi, p, true)
+			}(spi, c.probes[k])
+		}
+		go func() { wg.Wait(); close(probesDone) }()
+		c.probesSent = len(live)
+		missing := func() []int {
+			c.mu.Lock()
+			defer c.mu.Unlock()
+			got := map[int]bool{}
+			for _, r := range c.invs {
+				if p := c.plans[r.eid]; p != nil && p.probe && r.returned {
+					got[r.h] = true
+				}
+			}
+			var out []int
+			for _, h := range c.hs {
+				if !got[h.idx] && !c.s0[h.idx] {
+					out = append(out, h.idx)
+				}
+			}
+			return out
+		}
+		oc, dump := vlib.WaitUntil(func() bool { return vlib.IsClosed(probesDone) && len(missing()) == 0 }, wo)
+		if miss := missing(); oc != vlib.Done {
+			if oc == vlib.Stuck && len(miss) > 0 {
+				var who []string
+				for _, hi := range miss {
+					h := c.hs[hi]
+					when := "before Run"
+					if h.late {
+						when = "at run time"
+					}
+					who = append(who, fmt.Sprintf("handler %d (%s, added %s, subscriber %d topic %q)", hi, short(h.name), when, h.sub, h.subTopic))
+				}
+				res.Fail("handler-not-routed", "every RunHandlers round returned nil (%d retries after %d scripted start-up faults, Run failed: %v), a probe message was sent on each of the %d live subscriptions, and the process is quiescent, yet the function of %s was never invoked: no message arriving on its subscribe topic reaches it", c.retries, c.firedCount(), c.runFailed, len(live), strings.Join(who, ", "))
+				res.Witness = map[string]any{"goroutines": dump}
+			} else {
+				res.Inconclusive("the probe round after the bring-up did not complete (%v, handlers without a probe invocation: %v)", oc, miss)
+			}
+			shutdown()
 			return c.finish(res, ctl)
 		}
 	}
@@ -1279,7 +1885,7 @@ func run(e *vlib.Env) vlib.Result {
 			}
 		}
 		for i, s := range c.spis {
-			if spStream[i] >= 0 {
+			if spStream[i] >= 0 || s.dead {
 				continue
 			}
 			for _, h := range c.hs {
@@ -1298,6 +1904,9 @@ func run(e *vlib.Env) vlib.Result {
 		// one global interleaving, every emission settled before the next
 		var order []int
 		for i := range c.spis {
+			if spStream[i] < 0 || c.spis[i].dead {
+				continue
+			}
 			for range c.streams[spStream[i]] {
 				order = append(order, i)
 			}
@@ -1319,6 +1928,9 @@ func run(e *vlib.Env) vlib.Result {
 	} else {
 		var wg sync.WaitGroup
 		for i := range c.spis {
+			if spStream[i] < 0 || c.spis[i].dead {
+				continue
+			}
 			st := c.streams[spStream[i]]
 			if len(st) == 0 {
 				continue
@@ -1343,10 +1955,10 @@ func run(e *vlib.Env) vlib.Result {
 		}
 		go func() { wg.Wait(); close(streamsDone) }()
 	}
-	driveOc, driveDump := vlib.WaitClosed(streamsDone, vlib.WD)
+	driveOc, driveDump := vlib.WaitClosed(streamsDone, wo)
 	closeOc, closeDump := shutdown()
 	// after the shutdown every subscription has ended, so the stream goroutines finish
-	if oc, _ := vlib.WaitClosed(streamsDone, vlib.WD); oc != vlib.Done {
+	if oc, _ := vlib.WaitClosed(streamsDone, wo); oc != vlib.Done {
 		res.Inconclusive("stream drivers did not finish after the Router was closed")
 		return c.finish(res, ctl)
 	}
@@ -1482,6 +2094,9 @@ func (c *caseState) judge(res *vlib.Result, spStream []int, routerDone bool) {
 			continue
 		}
 		res.Count("emissions", 1)
+		if em.plan.probe {
+			res.Count("probe_emissions_after_bring_up", 1)
+		}
 		if em.attempt == 2 {
 			res.Count("redeliveries", 1)
 		}
@@ -1567,6 +2182,7 @@ func (c *caseState) judge(res *vlib.Result, spStream []int, routerDone bool) {
 		want := c.wantCtx(h)
 		if inv != nil {
 			res.Count("ctx_checks", 1)
+			c.countNameChecks(res, h)
 			if d := ctxDiff(inv.ctx, want); d != "" {
 				res.Fail("ctx-in-handler", "inside handler %d (%s, %s) for emission %s: %s (all five: %q)", h.idx, short(h.name), pubKindNames[h.pubKind], em.eid, d, inv.ctx)
 				continue
@@ -1723,6 +2339,7 @@ func (c *caseState) judge(res *vlib.Result, spStream []int, routerDone bool) {
 				c.countOutputValue(res, ptrs[i], em, ch.snaps[i])
 				owned = append(owned, ownedObj{ptrs[i], ch.snaps[i], em, h.idx, i})
 				res.Count("ctx_checks", 1)
+				c.countNameChecks(res, h)
 				if d := ctxDiff(ctxs[i], want); d != "" {
 					res.Fail("ctx-on-produced", "output %d (uuid %q) of handler %d (%s) for %s at Publish time: %s (all five: %q)", i, snaps[i].UUID, h.idx, short(h.name), em.eid, d, ctxs[i])
 					break
@@ -1780,6 +2397,30 @@ func (c *caseState) judge(res *vlib.Result, spStream []int, routerDone bool) {
 	res.Count("judged_publish", judgedPub)
 	res.Count("judged_nopub_nack", judgedNack)
 	res.NonTrivial = judgedPub+judgedNack > 0
+}
+
+// countNameChecks counts, per judged context, which naming rule the expected Pub/Sub type names exercise.
+func (c *caseState) countNameChecks(res *vlib.Result, h *hcfg) {
+	one := func(end string, kind int, nameKind, name string) {
+		switch {
+		case nameKind != "":
+			res.Count("ctx_checks_"+end+"_name_from_scripted_String", 1)
+			if strings.HasPrefix(name, "*") {
+				res.Count("ctx_checks_"+end+"_String_result_with_leading_star", 1)
+			}
+			if name == "" {
+				res.Count("ctx_checks_"+end+"_String_result_empty", 1)
+			}
+		case kind != ekVlib:
+			res.Count("ctx_checks_"+end+"_name_from_Go_type", 1)
+		}
+	}
+	se := c.subs[h.sub]
+	one("subscriber", se.kind, se.nameKind, se.name)
+	if h.pubKind == pubReal {
+		pe := c.pubs[h.pub]
+		one("publisher", pe.kind, pe.nameKind, pe.name)
+	}
 }
 
 func (c *caseState) runNames(runs []*layerRun) []string {
@@ -1989,7 +2630,11 @@ func (c *caseState) finish(res vlib.Result, ctl *vlib.Ctl) vlib.Result {
 			w += "+late"
 		}
 		wiring = append(wiring, w)
-		hsample = append(hsample, map[string]any{"name": short(h.name), "wiring": w, "subscriber_name": c.subs[h.sub].name})
+		hs := map[string]any{"name": short(h.name), "wiring": w, "subscriber_name": short(c.subs[h.sub].name), "subscriber_kind": ekNames[c.subs[h.sub].kind]}
+		if h.pubKind == pubReal {
+			hs["publisher_name"], hs["publisher_kind"] = short(c.pubs[h.pub].name), ekNames[c.pubs[h.pub].kind]
+		}
+		hsample = append(hsample, hs)
 	}
 	switch {
 	case len(c.hs) == 1:
@@ -2029,6 +2674,58 @@ func (c *caseState) finish(res vlib.Result, ctl *vlib.Ctl) vlib.Result {
 			}
 		}
 	}
+	if c.startup {
+		res.Class += "/startup"
+		res.Count("cases_start_up_class", 1)
+		maxBatch := 0
+		for _, b := range c.batches {
+			if len(b) > maxBatch {
+				maxBatch = len(b)
+			}
+			if len(b) > 1 {
+				res.Count("runhandlers_rounds_with_several_new_handlers", 1)
+			}
+		}
+		c.fmu.Lock()
+		fired, calls := c.fired, c.gateCalls
+		c.fmu.Unlock()
+		res.Count("start_up_faults_planned", c.faultsPlanned)
+		for g, n := range fired {
+			res.Count("start_up_faults_fired_"+gateNames[g], n)
+		}
+		res.Count("decorator_calls", calls[gPubDeco]+calls[gSubDeco])
+		res.Count("runhandlers_retries", c.retries)
+		if c.runFailed {
+			res.Count("cases_run_failed_then_runhandlers_retried", 1)
+			res.Count("handlers_started_by_a_failed_run_not_judged", len(c.s0))
+		}
+		if c.useDeco {
+			res.Count("cases_with_router_level_decorators", 1)
+		}
+		early := 0
+		for _, h := range c.hs {
+			if !h.late {
+				early++
+			}
+		}
+		if early == 0 {
+			res.Count("cases_router_started_without_handlers", 1)
+		}
+		res.Count("handlers_required_to_route_after_bring_up", len(c.hs)-len(c.s0))
+		res.Count("probes_sent", c.probesSent)
+	}
+	for _, se := range c.subs {
+		res.Count("subscriber_kind_"+ekNames[se.kind], 1)
+		if se.nameKind != "" {
+			res.Count("scripted_String_"+se.nameKind, 1)
+		}
+	}
+	for _, pe := range c.pubs {
+		res.Count("publisher_kind_"+ekNames[pe.kind], 1)
+		if pe.nameKind != "" {
+			res.Count("scripted_String_"+pe.nameKind, 1)
+		}
+	}
 	if c.useStatic {
 		res.Class += "/longlived"
 		res.Count("cases_with_long_lived_output_objects", 1)
@@ -2053,7 +2750,17 @@ func (c *caseState) finish(res vlib.Result, ctl *vlib.Ctl) vlib.Result {
 	for _, op := range c.rlOps {
 		regProg = append(regProg, fmt.Sprintf("%s%d", []string{"H", "R", "M"}[op[0]], op[1]))
 	}
-	res.Sig = vlib.Sig(strings.Join(wiring, ","), strings.Join(regProg, ","), strings.Join(shapes, ","), drive, c.maxAct.Load(), c.odd, c.useStatic, c.staticShared)
+	bringUp := ""
+	if c.startup {
+		var bs []string
+		for _, b := range c.batches {
+			bs = append(bs, fmt.Sprint(len(b)))
+		}
+		c.fmu.Lock()
+		bringUp = fmt.Sprintf("batches=%s deco=%v fired=%v retries=%d runFailed=%v s0=%d", strings.Join(bs, "+"), c.useDeco, c.fired, c.retries, c.runFailed, len(c.s0))
+		c.fmu.Unlock()
+	}
+	res.Sig = vlib.Sig(strings.Join(wiring, ","), strings.Join(regProg, ","), strings.Join(shapes, ","), drive, c.maxAct.Load(), c.odd, c.useStatic, c.staticShared, bringUp)
 	res.Hooks = ctl.Counts()
 	res.Count("handlers", len(c.hs))
 	res.Count("max_concurrent_invocations_sum", int(c.maxAct.Load()))
@@ -2105,6 +2812,9 @@ func (c *caseState) finish(res vlib.Result, ctl *vlib.Ctl) vlib.Result {
 	}
 	res.Sample = map[string]any{"handlers": hsample, "layers": layerNames, "registration": regProg, "drive": drive, "emission_shapes": sshapes, "invocations": trace, "publishes": pubs, "max_overlap": c.maxAct.Load(),
 		"odd_output_values": c.odd, "long_lived_outputs": c.useStatic, "long_lived_shared_by_all_handlers": c.staticShared}
+	if c.startup {
+		res.Sample.(map[string]any)["bring_up"] = bringUp
+	}
 	if res.Failed() && res.Witness == nil {
 		res.Witness = map[string]any{"handlers": hsample, "layers": layerNames, "registration": regProg, "invocations": trace, "publishes": pubs}
 	}
